@@ -634,6 +634,73 @@ func registerExternals() {
 		}
 		return strconv.Itoa(args[0].(int))
 	}
+	// parsing a string that is exactly one rendered symbolic integer gives the integer back
+	parseMarker := func(fr *frame, s string, bits uint8, signed bool) (value, bool) {
+		t, ok := fr.i.p.markerTerm(s)
+		if !ok || t.kind != KInt {
+			return nil, false
+		}
+		st := fr.i.p.store
+		w := st.Conv(t, 0, false)
+		lo := new(big.Int)
+		hi := new(big.Int).Lsh(big.NewInt(1), uint(bits))
+		if signed {
+			hi = new(big.Int).Lsh(big.NewInt(1), uint(bits-1))
+			lo = new(big.Int).Neg(hi)
+		}
+		inRange := st.And(st.Le(st.Wide(lo), w), st.Lt(w, st.Wide(hi)))
+		if !fr.i.p.branch(inRange) {
+			return nil, true // out of range: the caller returns its range error
+		}
+		return lower(st.Conv(t, bits, signed), nil), true
+	}
+	atoiOrig := ext["strconv.Atoi"]
+	ext["strconv.Atoi"] = func(fr *frame, args []value) value {
+		if s, ok := args[0].(string); ok && strings.HasPrefix(s, symMarkOpen) {
+			if v, ok := parseMarker(fr, s, 64, true); ok {
+				if v == nil {
+					return tuple{0, fr.i.makeError("strconv.Atoi: value out of range")}
+				}
+				if sv_, isS := v.(sv); isS {
+					return tuple{sv_, iface{}}
+				}
+				return tuple{int(v.(int64)), iface{}}
+			}
+		}
+		return atoiOrig(fr, args)
+	}
+	pintOrig := ext["strconv.ParseInt"]
+	ext["strconv.ParseInt"] = func(fr *frame, args []value) value {
+		if s, ok := args[0].(string); ok && strings.HasPrefix(s, symMarkOpen) {
+			bits := args[2].(int)
+			if bits == 0 {
+				bits = 64
+			}
+			if v, ok := parseMarker(fr, s, 64, true); ok && bits == 64 {
+				if v == nil {
+					return tuple{int64(0), fr.i.makeError("strconv.ParseInt: value out of range")}
+				}
+				return tuple{v, iface{}}
+			}
+		}
+		return pintOrig(fr, args)
+	}
+	puintOrig := ext["strconv.ParseUint"]
+	ext["strconv.ParseUint"] = func(fr *frame, args []value) value {
+		if s, ok := args[0].(string); ok && strings.HasPrefix(s, symMarkOpen) {
+			bits := args[2].(int)
+			if bits == 0 {
+				bits = 64
+			}
+			if v, ok := parseMarker(fr, s, 64, false); ok && bits == 64 {
+				if v == nil {
+					return tuple{uint64(0), fr.i.makeError("strconv.ParseUint: value out of range")}
+				}
+				return tuple{v, iface{}}
+			}
+		}
+		return puintOrig(fr, args)
+	}
 	ext["strconv.FormatInt"] = func(fr *frame, args []value) value {
 		if s, ok := args[0].(sv); ok {
 			return symDecimal(fr, s)
